@@ -132,6 +132,10 @@ def d1_call(ctx):
                     continue
                 npaths += 1
                 stores = [e for e in st.trace if e[0] == 'setitem']
+                if not stores and any(is_t(x) and (x[1] == 'dictobj' or (x[1] == 'call' and x[2] in ('dict', 'collections.OrderedDict', 'OrderedDict'))) for x in subterms(val)):
+                    # the per-cluster mapping is built by dict(pairs) / a dict comprehension over a list the walk does not model: nothing is concluded
+                    probs.setdefault('UNDECIDED the per-cluster selections are collected by dict(...) / a dict comprehension over a list, which the walk does not follow', 1)
+                    continue
                 if len(stores) != 2 or {e[4] for e in stores} != {T('cluster', C(0)), T('cluster', C(1))}:
                     probs.setdefault('two requested clusters get selections stored under %s' % [show(e[4]) for e in stores], 1)
                     continue
